@@ -3,6 +3,7 @@ C11 — input grammar: accept exactly the documented language, report every viol
 -/
 import GontainerModel.Lemmas.C11Aux
 import GontainerModel.Lemmas.Grammar
+import GontainerModel.Lemmas.Composite
 import GontainerModel.Model.Validate
 import GontainerModel.Model.Decode
 import GontainerModel.Generated.Wiring
@@ -39,6 +40,67 @@ theorem name_positions :
     Generated.re_input_regexpMetaContainerConstructor = Rx.goToken ∧ Generated.re_input_regexMetaFn = Rx.goToken ∧
     Generated.re_input_regexServiceCallName = Rx.goToken ∧ Generated.re_input_regexServiceFieldName = Rx.goToken :=
   ⟨rfl, rfl, rfl, rfl, rfl, rfl, rfl, rfl, rfl, rfl⟩
+
+
+/-! ### composite forms: the language of every regenerated expression is the documented form, for all strings -/
+
+/-- transfer: a regenerated expression that is the term `R`, whose language is the recogniser `P` -/
+theorem language_of {G R : Re} (pin : G = R) {P : List Char → Bool} (h : ∀ w, Re.Lang R w ↔ P w = true) (w : List Char) :
+    Re.accepts G w = P w := by
+  subst pin
+  have := Re.accepts_iff G w
+  rw [h] at this
+  cases h1 : Re.accepts G w <;> cases h2 : P w <;> simp_all
+
+/-- **package references** (`meta.imports` values): an import path — a letter, then letters, digits, `.`, `_`, `-`
+with single `/` separators, not ending in `/` — bare or in double quotes, or `"."` -/
+theorem import_language (w : List Char) : Re.accepts Generated.re_input_regexMetaImport w = Grammar.import_ w :=
+  language_of Pins.pin_input_regexMetaImport Grammar.import_iff w
+
+/-- **constructors, decorator functions, parameter functions**: `[package.]Ident` in the validator AND in the
+compiler (the two packages compile their own copies of the expression) -/
+theorem goFunc_language (w : List Char) :
+    Re.accepts Generated.re_input_regexServiceConstructor w = Grammar.goFunc w ∧
+    Re.accepts Generated.re_input_regexDecoratorMethod w = Grammar.goFunc w ∧
+    Re.accepts Generated.re_input_regexMetaGoFn w = Grammar.goFunc w ∧
+    Re.accepts Generated.re_compiler_regexServiceConstructor w = Grammar.goFunc w ∧
+    Re.accepts Generated.re_compiler_regexDecoratorMethod w = Grammar.goFunc w ∧
+    Re.accepts Generated.re_compiler_regexMetaGoFn w = Grammar.goFunc w :=
+  ⟨language_of Pins.pin_input_regexServiceConstructor Grammar.goFunc_iff w,
+   language_of Pins.pin_input_regexDecoratorMethod Grammar.goFunc_iff w,
+   language_of Pins.pin_input_regexMetaGoFn Grammar.goFunc_iff w,
+   language_of Pins.pin_compiler_regexServiceConstructor Grammar.goFunc_iff w,
+   language_of Pins.pin_compiler_regexDecoratorMethod Grammar.goFunc_iff w,
+   language_of Pins.pin_compiler_regexMetaGoFn Grammar.goFunc_iff w⟩
+
+/-- **service types**: `[*][package.]Ident`, validator and compiler -/
+theorem serviceType_language (w : List Char) :
+    Re.accepts Generated.re_input_regexServiceType w = Grammar.serviceType w ∧
+    Re.accepts Generated.re_compiler_regexServiceType w = Grammar.serviceType w :=
+  ⟨language_of Pins.pin_input_regexServiceType Grammar.serviceType_iff w,
+   language_of Pins.pin_compiler_regexServiceType Grammar.serviceType_iff w⟩
+
+/-- **service values**: `[&][package.]Ident(.Ident)*` or `[&][package.]Ident{}`, validator and the `syntax` helper
+that compiles them -/
+theorem serviceValue_language (w : List Char) :
+    Re.accepts Generated.re_input_regexServiceValue w = Grammar.serviceValue w ∧
+    Re.accepts Generated.re_syntax_regexServiceValue w = Grammar.serviceValue w :=
+  ⟨language_of Pins.pin_input_regexServiceValue Grammar.serviceValue_iff w,
+   language_of Pins.pin_syntax_regexServiceValue Grammar.serviceValue_iff w⟩
+
+/-- **decorator tags**: `*` or a tag name -/
+theorem decoratorTag_language (w : List Char) : Re.accepts Generated.re_input_regexDecoratorsTag w = Grammar.decoratorTag w :=
+  language_of Pins.pin_input_regexDecoratorsTag Grammar.decoratorTag_iff w
+
+/-- **argument forms of the resolvers**: `@service`, `!tagged <tag>`, `!value <service value>` (one or more
+white-space characters after the keyword) -/
+theorem argument_languages (w : List Char) :
+    Re.accepts Generated.re_resolver_serviceRegex w = Grammar.argService w ∧
+    Re.accepts Generated.re_resolver_taggedRegex w = Grammar.argTagged w ∧
+    Re.accepts Generated.re_resolver_valueRegex w = Grammar.argValue w :=
+  ⟨language_of Pins.pin_resolver_serviceRegex Grammar.argService_iff w,
+   language_of Pins.pin_resolver_taggedRegex Grammar.argTagged_iff w,
+   language_of Pins.pin_resolver_valueRegex Grammar.argValue_iff w⟩
 
 /-- **no masking between sections**: the configuration is accepted iff every section is -/
 theorem validate_sections (v : String) (i : Input) :
@@ -260,5 +322,28 @@ example : Grammar.yamlToken ['1','a'] = false := by decide
 example : Grammar.goToken ['G','e','t','D','B','_','2'] = true := by decide
 example : Grammar.goToken ['_','x'] = false := by decide
 example : Grammar.goToken ['a','-','b'] = false := by decide
+
+-- documented composite forms (docs/SERVICES.md, docs/META.md) are accepted, near misses rejected
+example : Grammar.import_ ['m','y','/','p','k','g','-','1','.','x'] = true := by decide
+example : Grammar.import_ ['"','m','y','/','p','k','g','"'] = true := by decide
+example : Grammar.import_ ['"','.','"'] = true := by decide
+example : Grammar.import_ ['m','y','/','/','p'] = false := by decide
+example : Grammar.import_ ['m','y','/'] = false := by decide
+example : Grammar.import_ ['"','m','y'] = false := by decide
+example : Grammar.goFunc ['p','k','g','.','N','e','w'] = true := by decide
+example : Grammar.goFunc ['"','a','/','b','"','.','N','e','w'] = true := by decide
+example : Grammar.goFunc ['a','.','b','.','N'] = true := by decide
+example : Grammar.goFunc ['p','k','g','.'] = false := by decide
+example : Grammar.serviceType ['*','p','.','T'] = true := by decide
+example : Grammar.serviceType ['*','*','T'] = false := by decide
+example : Grammar.serviceValue ['&','p','.','T','{','}'] = true := by decide
+example : Grammar.serviceValue ['p','.','V','.','F'] = true := by decide
+example : Grammar.serviceValue ['p','.','T','{',' ','}'] = false := by decide
+example : Grammar.serviceValue ['&','&','V'] = false := by decide
+example : Grammar.argTagged ['!','t','a','g','g','e','d',' ','\t','a','.','b'] = true := by decide
+example : Grammar.argTagged ['!','t','a','g','g','e','d','a'] = false := by decide
+example : Grammar.argValue ['!','v','a','l','u','e',' ','&','p','.','T','{','}'] = true := by decide
+example : Grammar.argService ['@','d','b','-','1'] = true := by decide
+example : Grammar.decoratorTag ['*'] = true := by decide
 
 end GM.C11
